@@ -145,6 +145,7 @@ class Printer:
         self.default_file = None
         self.byref_captures = set()     # decl ids of non-reference variables a lambda captures by reference
         self.renamed = {}               # decl id -> printed name, for parameters whose C++ name repeats (expanded packs)
+        self.auto_loops = {}            # loop ordinal -> default contract of a canonical counting loop (NV_AUTOLOOP_<c_name>_<k>)
         self.loop_counters = {}         # loop ordinal -> printed name of the loop's counter variable (NV_LOOPVAR_<c_name>_<k>)
         self.tu = None                  # translation unit of the function (set by core.Fn.emit): where unmapped /repo helpers are looked up
         self.auto_fns = {}              # (name, function type) -> C name of an auto-extracted helper (shared with nested printers)
@@ -869,7 +870,75 @@ class Printer:
         name = self.find_loop_counter(cond, parts) if cond else None
         if name:
             self.loop_counters[self.loops] = name
+            try:
+                auto = self.auto_loop_contract(cond, parts)
+            except Unsupported:
+                auto = None
+            if auto:
+                self.auto_loops[self.loops] = auto
         return f'NV_LOOP_{self.cname}_{self.loops}'
+
+    def auto_loop_contract(self, cond, parts):
+        """NV_AUTOLOOP_<c_name>_<k>: the contract of a canonical counting loop whose body writes nothing the contracts model
+        except its own counter (`for (c = ..; c < B; ++c)` / `for (c = ..; c > L; --c)`, also as a while loop and with
+        further conjuncts in the condition; B / L free of calls and of variables the loop assigns): frame {c}, invariant
+        "c between its entry value and the bound", variant = distance to the bound.  It is the default NV_LOOP_<c_name>_<k>
+        of a loop the spec gives no contract, so that auxiliary loops over erased numerics do not depend on how the source
+        spells or directs them.  A body that does write modelled state fails DFCC's frame check: such loops need (and have)
+        a contract in the spec."""
+        assigned, steps = set(), {}
+        for part in parts:
+            for x in astload_walk(part or {}):
+                k, op = x.get('kind'), x.get('opcode')
+                if (k == 'UnaryOperator' and op in ('++', '--')) or k == 'CompoundAssignOperator' or (k == 'BinaryOperator' and op == '='):
+                    u = unwrap(x['inner'][0])
+                    if u.get('kind') != 'DeclRefExpr':
+                        continue
+                    rid = u['referencedDecl'].get('id')
+                    assigned.add(rid)
+                    if k == 'UnaryOperator':
+                        steps.setdefault(rid, []).append(+1 if op == '++' else -1)
+                    else:
+                        steps.setdefault(rid, []).append(0)
+        conj = []
+
+        def split(n):
+            u = unwrap(n)
+            if u.get('kind') == 'BinaryOperator' and u.get('opcode') == '&&':
+                split(u['inner'][0])
+                split(u['inner'][1])
+            else:
+                conj.append(u)
+        split(cond)
+        for c in conj:
+            if c.get('kind') != 'BinaryOperator' or c.get('opcode') not in ('<', '>'):
+                continue
+            for ci, bi, flip in ((0, 1, False), (1, 0, True)):
+                u = unwrap(c['inner'][ci])
+                if u.get('kind') != 'DeclRefExpr' or u['referencedDecl'].get('kind') != 'VarDecl':
+                    continue
+                rid = u['referencedDecl'].get('id')
+                if steps.get(rid) not in ([+1], [-1]):
+                    continue
+                up = steps[rid] == [+1]
+                less = (c['opcode'] == '<') != flip          # counter < bound ?
+                if up != less:
+                    continue
+                bound = c['inner'][bi]
+                if any(y.get('kind') in ('CallExpr', 'CXXMemberCallExpr', 'CXXOperatorCallExpr', 'UnaryOperator', 'CompoundAssignOperator')
+                       and (y.get('kind') != 'UnaryOperator' or y.get('opcode') in ('++', '--', '*', '&')) for y in astload_walk(bound)):
+                    continue
+                if any(y.get('kind') == 'DeclRefExpr' and (y.get('referencedDecl') or {}).get('id') in assigned for y in astload_walk(bound)):
+                    continue
+                cn = self.renamed.get(rid, u['referencedDecl'].get('name'))
+                b = self.expr(bound)
+                cc = self.expr(c['inner'][ci])
+                if up:
+                    return (f'__CPROVER_assigns({cn}) __CPROVER_loop_invariant(__CPROVER_loop_entry({cn}) <= {cn} && '
+                            f'({cc} <= {b} || {cn} == __CPROVER_loop_entry({cn}))) __CPROVER_decreases(({cc} <= {b}) ? ({b}) - ({cc}) : 0)')
+                return (f'__CPROVER_assigns({cn}) __CPROVER_loop_invariant({cn} <= __CPROVER_loop_entry({cn}) && '
+                        f'({cc} >= {b} || {cn} == __CPROVER_loop_entry({cn}))) __CPROVER_decreases(({cc} >= {b}) ? ({cc}) - ({b}) : 0)')
+        return None
 
     def find_loop_counter(self, cond, parts):
         advanced = set()
